@@ -15,6 +15,12 @@ The cells live in helper modules (imported here so that they register):
   _c02_chain     (round 2) results of one operation fed into the next (with exact cancellation), and several calls
                  on the same operand objects
   _c02_bool      (round 2) indicator tensors stored as booleans (comparison results) as operands
+  _c02_large     (round 3) a few operands per run above internal block sizes (> 1e4 stored nonzeros, 1e5..1e6 cells,
+                 ranks 10..20), every operation x holder class, stored as compact descriptions (sizes + seed)
+  _c02_special   (round 3) ordinary cases transformed into near-special ones: units of 1e-12 .. 1e+12, slices spread over
+                 24 decades, unbalanced Kruskal / Tucker parameters, identity / orthonormal / unit-norm factors and
+                 multiplicands exactly, epsilon-perturbed and merely normalised
+  _c02_huge      (round 3) sparse tensors with modes longer than 2**53 and cell counts beyond 2**63 (dictionary oracle)
   _c02_findings  predicates referenced by known_findings/C02.json
 """
 
@@ -29,6 +35,9 @@ from . import _c02_pairs  # noqa: F401
 from . import _c02_unary  # noqa: F401
 from . import _c02_chain  # noqa: F401
 from . import _c02_bool  # noqa: F401
+from . import _c02_large  # noqa: F401
+from . import _c02_special  # noqa: F401
+from . import _c02_huge  # noqa: F401
 from ._c02_findings import PREDICATES  # noqa: F401
 
 logging.disable(logging.WARNING)  # pyttb logs a warning per no-copy construction; not a verdict
@@ -59,7 +68,18 @@ RULE = (
     "obj-* (what the built object really looks like: not F-contiguous, numpy ints in shape, stored zeros, dtype).  "
     "Chain cells feed the result of one operation into the next (with mirrored slices so that sums cancel exactly in "
     "sparse results) and repeat the first call at the end; sequence cells make 2-4 calls sharing receiver, factor "
-    "operand, vector list and second tensor."
+    "operand, vector list and second tensor.  "
+    "Round 3: (large) every operation x holder class on a few operands per run above internal block sizes - sparse "
+    "with 1e4..6e4 stored nonzeros, dense with 1e5..1e6 cells, Kruskal of rank 10..20, Tucker with a 10..20-wide core, "
+    "5-6 modes or a sparse core holding > 1e4 nonzeros, sums of those - stored as compact descriptions (sizes + an "
+    "integer seed) and expanded inside the body into the ordinary case format, judged by the ordinary bodies against "
+    "NumPy on the expanded array; (hugemodes) sparse tensors with modes longer than 2**53 / 2**60 and cell counts beyond "
+    "2**63, judged on the dictionary {subscript: value} with integer data; (special) ordinary cases transformed into "
+    "near-special ones - whole operands in units of 1e-12..1e+12 (1e-100 / 1e+100), multiplicands in such units, "
+    "slices of one mode spread over up to 24 decades, unbalanced Kruskal / Tucker parameters (a column of norm 1e-18 with "
+    "a weight 1e+18, up to 1e-100 / 1e+100), factor matrices and multiplicands that are identity-like, orthonormal, "
+    "unit-norm-but-not-orthogonal or partial permutations, exactly and perturbed by 1e-12..1e-5, unit / all-ones vectors "
+    "exactly and perturbed, exactly and nearly symmetric data for ttsv; labels special:*, large:*."
 )
 ASSUMPTIONS = [
     "derived states are produced through the public API only; the operations that make up a history are judged by "
@@ -91,4 +111,20 @@ ASSUMPTIONS = [
     "scipy sparse matrices are passed to tensor.ttm / sptensor.ttm (both accept them) because they are the only "
     "route to the sparse-result branch of sptensor.ttm",
     "exact comparison for integer-valued data is used only while the absolute-value bound stays below 2**50",
+    "(round 3) large operands: sparse x sparse kernels that compare every stored entry of one operand with every one of "
+    "the other (innerprod, mask, scale by a sparse factor) get one large and one small operand in the quick tier; the "
+    "reference array of a large Kruskal / Tucker holder is formed with matrix products of Khatri-Rao factors / a "
+    "tensordot chain instead of one einsum",
+    "(round 3) transformed cases keep every bound relative to the same sum on absolute values; units of 1e-100 / 1e+100 "
+    "are applied to one operand and one transform only, so that no defining product leaves the double range; for norm "
+    "and innerprod of the transformed cases the rounding-error count is that of the algorithms themselves (Gram / "
+    "cross-Gram matrices, sum over pairs of components, or expansion and a sum over the cells: _c02_common.tight_count) "
+    "instead of the product of all counts, so that perturbations of 1e-9 are visible",
+    "(round 3) products of two narrow-integer operands that wrap to zero are NumPy's own promotion rule and stay out "
+    "(see above); underflow of a defining product to exactly zero is not generated (the reference itself would underflow)",
+    "(round 3) sparse tensors with huge modes: the kernels that need one multiplicand entry per index of a huge mode "
+    "(ttv / scale along that mode, mttkrp, ttm, which matricises against a dense matrix) are outside the domain; a "
+    "result with exactly one mode is accumulated by pyttb in a dense vector of that mode's length (documented "
+    "algorithm), so such a mode is always a small one; empty mode subsets are outside the property's quantifier "
+    "('every non-empty subset of modes') and are not requested",
 ]
